@@ -433,3 +433,48 @@ package ring
 //@   loop 0 invariant descTokensOK(d) ==> (forall x int :: 0 <= x && x < len(instances) ==> $visited[idOf[x]] && in(idOf[x], d.Ingesters) && instances[x] == d.Ingesters[idOf[x]].Tokens && ixOf[idOf[x]] == x)
 //@   loop 0 invariant forall id string :: $visited[id] ==> 0 <= ixOf[id] && ixOf[id] < len(instances) && idOf[ixOf[id]] == id
 //@   modifies nothing
+//@
+//@ # read-only helpers of the index construction: they do not change the descriptor (frame obligations, proved)
+//@ func Desc.getTokensByZone
+//@   property C05
+//@   modifies nothing
+//@ func Desc.getOldestRegisteredTimestamp
+//@   property C05
+//@   modifies nothing
+//@ func Desc.instancesWithTokensCount
+//@   property C05
+//@   modifies nothing
+//@ func Desc.instancesCountPerZone
+//@   property C05
+//@   modifies nothing
+//@ func Desc.instancesWithTokensCountPerZone
+//@   property C05
+//@   modifies nothing
+//@ func Desc.writableInstancesWithTokensCount
+//@   property C05
+//@   modifies nothing
+//@ func Desc.writableInstancesWithTokensCountPerZone
+//@   property C05
+//@   modifies nothing
+//@ func Desc.readOnlyInstancesAndOldestReadOnlyUpdatedTimestamp
+//@   property C05
+//@   modifies nothing
+//@ func Ring.updateRingZones
+//@   property C05
+//@   requires !isnil(r.trackedRingZones)
+//@   ensures  same(r.ringZones, zones) && same(r.ringDesc, old(r).ringDesc) && same(r.ringTokens, old(r).ringTokens) && same(r.ringInstanceByToken, old(r).ringInstanceByToken) && same(r.ringTokensByZone, old(r).ringTokensByZone) && r.cfg == old(r).cfg
+//@   loop 0 invariant same(r.ringZones, zones) && same(r.ringDesc, old(r).ringDesc) && same(r.ringTokens, old(r).ringTokens) && same(r.ringInstanceByToken, old(r).ringInstanceByToken) && same(r.ringTokensByZone, old(r).ringTokensByZone) && r.cfg == old(r).cfg && !isnil(r.trackedRingZones)
+//@ assume func Ring.updateRingMetrics
+//@   modifies nothing
+//@
+//@ # The lookup representation invariant is established whenever the client (re)builds its indexes from a descriptor whose
+//@ # token lists are strictly sorted and pairwise disjoint (what normalizeIngestersMap and resolveConflicts leave behind):
+//@ # strictly sorted ring tokens, an owner record for every ring token, owner records that name an existing entry and
+//@ # carry that entry's zone. (The zone list part of the invariant is not established here: getZones is not under contract.)
+//@ func Ring.setRingStateFromDesc
+//@   property C05 C01
+//@   requires ringDesc != nil && !isnil(ringDesc.Ingesters) && descTokensOK(ringDesc) && !isnil(r.trackedRingZones)
+//@   ensures  desc: same(r.ringDesc, ringDesc)
+//@   ensures  sorted: sortedStrict(r.ringTokens)
+//@   ensures  owners: forall i int :: 0 <= i && i < len(r.ringTokens) ==> in(r.ringTokens[i], r.ringInstanceByToken)
+//@   ensures  zones_of_owners: forall t uint32 :: in(t, r.ringInstanceByToken) ==> in(r.ringInstanceByToken[t].InstanceID, r.ringDesc.Ingesters) && r.ringDesc.Ingesters[r.ringInstanceByToken[t].InstanceID].Zone == r.ringInstanceByToken[t].Zone
